@@ -9,6 +9,7 @@ Two layers:
    re-created at index k of the tick's file-open sequence (quick: sampled k, thorough: every k).
 """
 import copy
+import itertools
 import json
 
 from vlib import core
@@ -262,6 +263,20 @@ def gen(rng, tier):
     pr = dict(PROC)
     pr["meminfo"] = "MemTotal:       16000000 kB\n"
     yield tick_scenario("kill_by_swap_usage", proc=pr)
+    # /proc files that differ from tick to tick: every sequence of states of /proc/vmstat (full, without pswpout, other keys
+    # only, empty, absent) over three ticks, and the same for meminfo / swaps on a random sample
+    vm = {"full": PROC["vmstat"], "nopswpout": "pgpgin 100\npswpin 5\npgscan_kswapd 9\n", "other": "nr_free_pages 5\n", "empty": "", "absent": None}
+    for seq in itertools.product(sorted(vm), repeat=3):
+        sc = tick_scenario("kill_by_swap_usage" if len(set(seq)) % 2 else "kill_by_pressure")
+        sc["proc_ticks"] = [{"vmstat": vm[x]} for x in seq]
+        yield sc
+    alt = {"meminfo": [PROC["meminfo"], "MemTotal:       16000000 kB\n", "", None],
+           "swaps": [PROC["swaps"], "Filename Type Size Used Priority\n", "", None],
+           "swappiness": [PROC["swappiness"], "", None]}
+    for _ in range({"quick": 30, "thorough": 400, "search": 120}[tier]):
+        sc = tick_scenario(rng.choice(KILLERS))
+        sc["proc_ticks"] = [{k: rng.choice(v) for k, v in alt.items() if rng.random() < 0.6} for _ in range(3)]
+        yield sc
     for kp in KILLERS:
         t = base_tree()
 
